@@ -42,32 +42,59 @@ use super::{
     ParserInput,
 };
 
+/// Apply an optional sign token to a real literal; any operator other than `+` or `-` is an error.
+fn apply_sign_to_real<'a>(
+    input: ParserInput<'a>,
+    sign: Option<Operator>,
+    value: f64,
+) -> Result<f64, InternalParseError<'a>> {
+    match sign {
+        None | Some(Operator::Plus) => Ok(value),
+        Some(Operator::Minus) => Ok(-value),
+        Some(other) => Err(invalid_sign(input, other)),
+    }
+}
+
+/// Apply an optional sign token to an integer literal; the result must be representable as an
+/// `i64`, and any operator other than `+` or `-` is an error.
+fn apply_sign_to_integer<'a>(
+    input: ParserInput<'a>,
+    sign: Option<Operator>,
+    value: u64,
+) -> Result<i64, InternalParseError<'a>> {
+    let signed = match sign {
+        None | Some(Operator::Plus) => i64::try_from(value).ok(),
+        Some(Operator::Minus) => 0i64.checked_sub_unsigned(value),
+        Some(other) => return Err(invalid_sign(input, other)),
+    };
+    signed
+        .ok_or_else(|| InternalParseError::from_kind(input, ParserErrorKind::UnsupportedPrecision))
+}
+
+fn invalid_sign<'a>(input: ParserInput<'a>, operator: Operator) -> InternalParseError<'a> {
+    InternalParseError::from_kind(
+        input,
+        ParserErrorKind::ExpectedToken {
+            actual: Token::Operator(operator),
+            expected: "a sign (+ or -)".to_owned(),
+        },
+    )
+}
+
 /// Parse the operand of an arithmetic instruction, which may be a literal integer, literal real
 /// number, or memory reference.
 pub(crate) fn parse_arithmetic_operand<'a>(
     input: ParserInput<'a>,
 ) -> InternalParserResult<'a, ArithmeticOperand> {
     alt((
-        map(
+        map_res(
             tuple((opt(token!(Operator(o))), token!(Float(v)))),
-            |(op, v)| {
-                let sign = match op {
-                    None => 1f64,
-                    Some(Operator::Minus) => -1f64,
-                    _ => panic!("Implement this error"), // TODO
-                };
-                ArithmeticOperand::LiteralReal(sign * v)
-            },
+            |(sign, v)| apply_sign_to_real(input, sign, v).map(ArithmeticOperand::LiteralReal),
         ),
-        map(
+        map_res(
             tuple((opt(token!(Operator(o))), token!(Integer(v)))),
-            |(op, v)| {
-                let sign = match op {
-                    None => 1,
-                    Some(Operator::Minus) => -1,
-                    _ => panic!("Implement this error"), // TODO
-                };
-                ArithmeticOperand::LiteralInteger(sign * (v as i64))
+            |(sign, v)| {
+                apply_sign_to_integer(input, sign, v).map(ArithmeticOperand::LiteralInteger)
             },
         ),
         map(parse_memory_reference, ArithmeticOperand::MemoryReference),
@@ -80,26 +107,14 @@ pub(crate) fn parse_comparison_operand<'a>(
     input: ParserInput<'a>,
 ) -> InternalParserResult<'a, ComparisonOperand> {
     alt((
-        map(
+        map_res(
             tuple((opt(token!(Operator(o))), token!(Float(v)))),
-            |(op, v)| {
-                let sign = match op {
-                    None => 1f64,
-                    Some(Operator::Minus) => -1f64,
-                    _ => panic!("Implement this error"), // TODO
-                };
-                ComparisonOperand::LiteralReal(sign * v)
-            },
+            |(sign, v)| apply_sign_to_real(input, sign, v).map(ComparisonOperand::LiteralReal),
         ),
-        map(
+        map_res(
             tuple((opt(token!(Operator(o))), token!(Integer(v)))),
-            |(op, v)| {
-                let sign = match op {
-                    None => 1,
-                    Some(Operator::Minus) => -1,
-                    _ => panic!("Implement this error"), // TODO
-                };
-                ComparisonOperand::LiteralInteger(sign * (v as i64))
+            |(sign, v)| {
+                apply_sign_to_integer(input, sign, v).map(ComparisonOperand::LiteralInteger)
             },
         ),
         map(parse_memory_reference, ComparisonOperand::MemoryReference),
@@ -111,16 +126,9 @@ pub(crate) fn parse_binary_logic_operand<'a>(
     input: ParserInput<'a>,
 ) -> InternalParserResult<'a, BinaryOperand> {
     alt((
-        map(
+        map_res(
             tuple((opt(token!(Operator(o))), token!(Integer(v)))),
-            |(op, v)| {
-                let sign = match op {
-                    None => 1,
-                    Some(Operator::Minus) => -1,
-                    _ => panic!("Implement this error"), // TODO
-                };
-                BinaryOperand::LiteralInteger(sign * (v as i64))
-            },
+            |(sign, v)| apply_sign_to_integer(input, sign, v).map(BinaryOperand::LiteralInteger),
         ),
         map(parse_memory_reference, BinaryOperand::MemoryReference),
     ))(input)
